@@ -81,6 +81,9 @@ class EprCmdData:
     request: Optional[LinkLayerCreate]
     tot_pairs: int
     pairs_left: int
+    # Application that issued the request. The responses may arrive after the issuing
+    # subroutine has finished, so the application cannot be looked up via the subroutine.
+    app_id: Optional[int] = None
 
 
 def inc_program_counter(method):
@@ -1036,6 +1039,7 @@ class Executor:
                 request=create_request,
                 tot_pairs=create_request.number,
                 pairs_left=create_request.number,
+                app_id=app_id,
             )
         )
         return None
@@ -1155,6 +1159,7 @@ class Executor:
                 request=None,
                 tot_pairs=num_pairs,
                 pairs_left=num_pairs,
+                app_id=app_id,
             )
         )
         return None
@@ -1413,19 +1418,27 @@ class Executor:
         subroutine_id: int,
         virtual_address: int,
         physical_address: Optional[int] = None,
+        app_id: Optional[int] = None,
     ) -> int:
         """[summary]
 
         :param subroutine_id: [description]
         :param virtual_address: [description]
         :param physical_address: [description], defaults to None
+        :param app_id: application owning the virtual address; looked up via the
+            subroutine if not given (the subroutine may be gone for EPR deliveries)
         :raises ValueError: [description]
         :raises RuntimeError: [description]
         :return: physical qubit ID
         """
-        unit_module = self._get_unit_module(subroutine_id)
+        if app_id is None:
+            app_id = self._get_app_id(subroutine_id)
+        unit_module = self._qubit_unit_modules.get(app_id)
+        if unit_module is None:
+            raise RuntimeError(
+                f"Application with app ID {app_id} has not allocated qubit unit module"
+            )
         if virtual_address >= len(unit_module):
-            app_id = self._subroutines[subroutine_id].app_id
             raise ValueError(
                 f"Virtual address {virtual_address} is outside the unit module (app ID {app_id}) "
                 f"which has length {len(unit_module)}"
@@ -1438,7 +1451,6 @@ class Executor:
             self._reserve_physical_qubit(physical_address)
             return physical_address
         else:
-            app_id = self._subroutines[subroutine_id].app_id
             raise RuntimeError(
                 f"QubitAddress at address {virtual_address} "
                 f"for application {app_id} is already allocated"
@@ -1614,8 +1626,7 @@ class Executor:
         # Start and stop of slice
         arr_start = pair_index * OK_FIELDS
         arr_stop = (pair_index + 1) * OK_FIELDS
-        subroutine_id = epr_cmd_data.subroutine_id
-        app_id = self._get_app_id(subroutine_id=subroutine_id)
+        app_id = self._get_epr_app_id(epr_cmd_data)
         if app_id not in self._app_arrays:
             raise KeyError("App ID {app_id} does not have any arrays")
         self._app_arrays[app_id][
@@ -1627,7 +1638,7 @@ class Executor:
     ) -> bool:
         # Extract qubit addresses
         subroutine_id = epr_cmd_data.subroutine_id
-        app_id = self._get_app_id(subroutine_id=subroutine_id)
+        app_id = self._get_epr_app_id(epr_cmd_data)
         virtual_address = self._get_virtual_address_from_epr_data(
             epr_cmd_data, pair_index, app_id
         )
@@ -1651,9 +1662,16 @@ class Executor:
             subroutine_id=subroutine_id,
             virtual_address=virtual_address,
             physical_address=physical_address,
+            app_id=app_id,
         )
 
         return True
+
+    def _get_epr_app_id(self, epr_cmd_data: EprCmdData) -> int:
+        """Application that issued the EPR request `epr_cmd_data`."""
+        if epr_cmd_data.app_id is not None:
+            return epr_cmd_data.app_id
+        return self._get_app_id(subroutine_id=epr_cmd_data.subroutine_id)
 
     def _get_virtual_address_from_epr_data(
         self, epr_cmd_data: EprCmdData, pair_index: int, app_id: int
